@@ -45,6 +45,10 @@ def check(run):
     from pyvc import templates
     tfailed = D.structural_generic(run, ["generation/simplifier.py"], templates.obligations, "pyvc.templates (AST analysis)",
                                    "every entry get_all_dup lists is an instance of one of the three templates proved self-inverse (for every max_param)")
+    # do_sympy: every pass that rewrites functions leaves its round files and is counted (what the round-combination contract of duplicate_checker.main combines)
+    from contracts import c_dosympy as _cds
+    rlfailed = D.structural_generic(run, ["generation/simplifier.py"], _cds.round_loop_obligations, "contracts.c_dosympy (AST analysis)",
+                                    "no pass of do_sympy is left before its round files are written; the number of rounds handed back counts every pass")
     # load_subs: distribution of the file's rows over the ranks and their collection, with the SPMD rule (contracts/c_spmd.py)
     from contracts import c_spmd
     lfailed = []
@@ -155,6 +159,7 @@ def check(run):
         from checks.C14 import report_unproved
         report_unproved(run, dfailed, False, "simplifier.simplify_inv_subs")
     D.report_structural(run, tfailed, "templates", "pyvc/templates.py")
+    D.report_structural(run, rlfailed, "rounds", "contracts/c_dosympy.py round_loop_obligations")
     if lfailed and not run.violations:
         from checks.C14 import report_unproved
         report_unproved(run, lfailed, False, "simplifier.load_subs (distribution / collection) / combination of the rounds")
